@@ -74,6 +74,9 @@ pub struct GenCfg {
     /// away, the rest kept) followed at once by requests on that user's open connections
     #[serde(default)]
     pub revocation_chance: f64,
+    /// share of purges that are a send followed at once by the purge (see `Op::SendThenPurge`)
+    #[serde(default)]
+    pub send_then_purge_chance: f64,
 }
 
 impl Default for GenCfg {
@@ -100,6 +103,7 @@ impl Default for GenCfg {
             invalid_chance: 0.0,
             codec_corners: false,
             revocation_chance: 0.0,
+            send_then_purge_chance: 0.0,
         }
     }
 }
@@ -357,6 +361,12 @@ impl Gen {
             (7, _) => Op::RestartLosingIndexes(StopKind::GracefulDrained),
             (8, Some(t)) => {
                 let (s, tt) = self.refs(&t);
+                let n = model.streams[&t.0].topics[&t.1].partitions.len() as u32;
+                if n > 0 && self.rng.chance(self.cfg.send_then_purge_chance) {
+                    let k = *self.rng.pick(&[1u32, 3, 5, 10, 20]);
+                    let msgs: Vec<MsgSpec> = (0..k).map(|_| self.msg()).collect();
+                    return Op::SendThenPurge { stream: s, topic: tt, partition: 1 + self.rng.below(n as u64) as u32, msgs };
+                }
                 if self.rng.chance(0.3) {
                     Op::PurgeStream { c, stream: s }
                 } else {
